@@ -1,1 +1,2 @@
+pub mod expand;
 pub mod fnmatch;
